@@ -22,7 +22,7 @@ SHRINK_LISTS = ("ops",)
 WATCH_FILES = ("ak/color.py", "ak/ppobj.py", "ak/hdoc.py", "ak/ghist.py")
 # id_reused / id_calls are reported but not required: since the fix 902f1ff no code under this
 # property calls id() any more (the seam stays installed so that a re-introduction is caught)
-REQUIRED_PROBES = ("tbl_rendered_then_changed", "renders_checked", "tasks_completed", "gc_runs", "conf_dropped", "ref_requests",
+REQUIRED_PROBES = ("tbl_rendered_then_changed", "tbl_sibling_of_rendered", "renders_checked", "tasks_completed", "gc_runs", "conf_dropped", "ref_requests",
                    "after_other_conf", "after_drop", "tasks_interleaved", "lines_vs_whole", "nocolor_checked")
 
 REAL_VS_STUB = {'real': ['ak.color, ak.ppobj, ak.hdoc, ak.ghist (report building and formatting), ak.mcaller_http (help of method callers)'], 'stub': ['id() as seen by ak.ppobj/ak.color/ak.hdoc/ak.ghist -> simulated allocator with adversarial re-use', 'cyclic GC timing -> gc.disable() + scheduled gc.collect()', 'the git repository behind ProjectRepo -> deterministic in-memory fake (sim/fakegit.py)', 'process-global state -> one fresh forked process per run, one pristine forked process per reference rendering', 'ssl.SSLContext.load_default_certs -> no-op; logging disabled']}
@@ -142,7 +142,7 @@ def gen_table(rng, n_enums, big=False):
     if rng.random() < 0.3:
         spec["footer"] = rng.choice(["", "custom footer"])
     if rng.random() < 0.2:
-        spec["titles"] = {"name": rng.choice(["Full\nName", "N"])}
+        spec["titles"] = {"name": rng.choice(["Full\nName", "N", ["Full", "Name"], ["Nm"]])}
     if rng.random() < 0.2:
         spec["limits"] = [rng.randint(0, 2), rng.randint(0, 2)]
     if rng.random() < 0.3 and recs:
@@ -153,7 +153,7 @@ def gen_table(rng, n_enums, big=False):
         spec["via_fmt_obj"] = True
     if rng.random() < 0.15:
         plain = [f for f in fields if f != "status"]
-        spec["wtypes"] = {rng.choice(plain): [rng.randint(0, 4), rng.randint(4, 9)]}
+        spec["wtypes"] = {rng.choice(plain): [rng.randint(0, 4), rng.randint(4, 9)] + (["center"] if rng.random() < 0.4 else [])}
     if rng.random() < 0.08 and recs:
         # a user's field type that raises for some values: the rendering of this table fails half-way
         spec["poison"] = rng.choice([f for f in fields if f in ("name", "level")] or ["id"])
@@ -216,6 +216,30 @@ def apply_tbl_op(spec, op):
         eff["skip_columns"] = skip + gone
         return eff
     return None
+
+
+def sibling_spec(src, sib):
+    """description of the fresh table equal to PPTable(subset of records, fmt_obj=<table described by src>.fmt,
+    limits=..., skip_columns=...); None when it does not apply"""
+    if src.get("kind") != "table" or src.get("enhanced") or src.get("poison"):
+        return None
+    eff = dict(src)
+    recs = src["records"]
+    keep = sib.get("keep", "all")
+    eff["records"] = (recs[: max(1, len(recs) // 2)] if keep == "half" else recs[::2] if keep == "odd"
+                      else recs[:1] if keep == "first" else recs)
+    if src.get("nt") and not eff["records"]:
+        return None
+    if sib.get("limits") is not None:
+        eff["limits"] = list(sib["limits"])
+    eff["skip_used"] = []
+    if sib.get("skip"):
+        e2 = apply_tbl_op(eff, {"op": "tbl_remove", "names": sib["skip"]})
+        if e2 is not None:
+            eff = e2
+            eff["skip_used"] = list(sib["skip"])
+    eff.pop("via_fmt_obj", None)
+    return eff
 
 
 def tbl_fmt_string(op):
@@ -354,7 +378,7 @@ def generate(rng, tier):
     n_ops = rng.randint(15, 60 if tier != "quick" else 45)
 
     def render_args(o):
-        kind = objs[live_obj[o]]["kind"]
+        kind = cur[o]["kind"]
         conf = rng.choice(sorted(live_conf) + ["global"]) if (live_conf and kind not in GLOBAL_ONLY) else "global"
         a = {"obj": o, "conf": conf, "no_color": (rng.random() < 0.25 and kind not in GLOBAL_ONLY),
              "palette": rng.choice(PALETTES_FOR[kind]), "rec": rng.randrange(3)}
@@ -371,9 +395,28 @@ def generate(rng, tier):
         elif not live_obj or r < 0.16:
             o = rng.randrange(N_OBJ)
             j = rng.randrange(len(objs))
-            ops.append({"op": "obj_new", "slot": o, "spec": j})
+            srcs = [x for x in sorted(live_obj) if x != o and cur[x]["kind"] == "table"]
+            sib = None
+            if srcs and rng.random() < 0.4:
+                # a second table made from the format object of a live one (both stay in use)
+                of = rng.choice(srcs)
+                sib = {"of": of, "keep": rng.choice(["half", "odd", "first", "all"]),
+                       "limits": rng.choice([None, None, [1, 1], [0, 2], [2, 0], [1, 0]]),
+                       "skip": rng.sample(cur[of]["fields"], 1) if rng.random() < 0.3 else None}
+                eff = sibling_spec(cur[of], sib)
+                if eff is None:
+                    sib = None
+                else:
+                    eff.pop("skip_used", None)
+            if sib is not None:
+                ops.append({"op": "obj_new", "slot": o, "spec": j, "sib": sib})
+                cur[o] = eff
+            else:
+                ops.append({"op": "obj_new", "slot": o, "spec": j})
+                cur[o] = objs[j]
             live_obj[o] = j
-            cur[o] = objs[j]
+            for t in [t for t, oo in live_task.items() if oo == o]:
+                del live_task[t]
         elif r < 0.22:
             s = rng.choice(sorted(live_conf))
             ops.append({"op": "conf_drop", "slot": s})
@@ -556,7 +599,8 @@ class World:
                       "task_steps": 0, "tasks_interleaved": 0, "gc_runs": 0, "conf_new": 0, "conf_dropped": 0,
                       "conf_global": 0, "conf_add": 0, "touch": 0, "obj_new": 0, "after_other_conf": 0,
                       "after_drop": 0, "nocolor_checked": 0, "lines_vs_whole": 0, "plain_checked": 0,
-                      "ref_errors_agreed": 0, "tbl_refmt": 0, "tbl_remove": 0, "tbl_rendered_then_changed": 0}
+                      "ref_errors_agreed": 0, "tbl_refmt": 0, "tbl_remove": 0, "tbl_rendered_then_changed": 0,
+                      "tbl_siblings": 0, "tbl_sibling_of_rendered": 0}
         for k in ("table", "pp", "recfmt", "ghist", "hdoc", "ppwrap", "userbox", "usernote"):
             self.stats["kind." + k] = 0
 
@@ -770,6 +814,23 @@ def _do_op(w, trace, op, n, k, log, color):
         gc.collect()
         w.stats["gc_runs"] += 1
     elif k == "obj_new":
+        sib = op.get("sib")
+        if sib is not None:
+            src = w.objs.get(sib["of"])
+            eff = sibling_spec(w.specs[src[1]], sib) if (src is not None and sib["of"] != op["slot"]) else None
+            if eff is not None:
+                skip = eff.pop("skip_used", None)
+                ctx = (len(w.specs), {"init": {}, "no_color": False, "batches": []},
+                       {"via": "explicit", "no_color": True, "palette": None})
+                w.specs.append(eff)
+                built = w.guarded("build-sibling-table", ctx, rw.ro.build_sibling, src[0], eff, sib.get("limits"), skip)
+                w.objs[op["slot"]] = (built, len(w.specs) - 1)
+                w.obj_confs_used.pop(op["slot"], None)
+                w.stats["obj_new"] += 1
+                w.stats["tbl_siblings"] += 1
+                if w.obj_confs_used.get(sib["of"]):
+                    w.stats["tbl_sibling_of_rendered"] += 1
+                return
         j = op["spec"] % len(trace["objs"])
         spec = trace["objs"][j]
         enums = {}
